@@ -753,7 +753,7 @@ func (w *World) emit(nd *Node, ex *Exec, vd *spec.Verdict) {
 			Carries: vd.EmitCarries[i], OrigCallType: m.CallType}
 		fn, _, perr := spec.ParseData(t.Data)
 		switch {
-		case kind == "cont" && nm.DstShard != nd.ID && nm.DstShard != vmcommon.MetachainShardId && perr == nil && fn == ex.Func:
+		case kind == "cont" && nm.DstShard != nd.ID && nm.DstShard != spec.MetaShard && perr == nil && fn == ex.Func:
 			nm.Kind = KindContinuation
 			if ex.Func == spec.FnCreateRoleTransfer {
 				nm.Tag = "handover:" + string(ex.Args[0])
@@ -787,7 +787,7 @@ func (w *World) emit(nd *Node, ex *Exec, vd *spec.Verdict) {
 	}
 	if m.Kind == KindUserTx && !emittedCont {
 		ds := ShardOf(m.Rcv, nd.N)
-		if ds != nd.ID && ds != vmcommon.MetachainShardId && !bytes.Equal(m.Rcv, vmcommon.SystemAccountAddress) {
+		if ds != nd.ID && ds != spec.MetaShard && !bytes.Equal(m.Rcv, spec.SystemAccount) {
 			nm := &Msg{ID: newID(), Kind: KindContinuation, Snd: m.Snd, Rcv: m.Rcv, Data: m.Data, Value: m.Value, Gas: ex.Out.GasRemaining,
 				GasLocked: m.GasLocked, CallType: m.CallType, SrcShard: nd.ID, DstShard: ds, Carries: vd.ContCarries, OrigCallType: m.CallType}
 			w.Pool = append(w.Pool, nm)
@@ -983,7 +983,7 @@ func (w *World) refund(m *Msg, ex *Exec) {
 	}
 	r := &Msg{ID: m.ID + "R", Kind: KindRefund, Snd: m.Rcv, Rcv: m.Snd, Data: BuildData(fn, args[:n]), Value: big.NewInt(0), Gas: m.Gas,
 		GasLocked: m.GasLocked, CallType: ct, ReturnErr: true, SrcShard: m.DstShard, DstShard: ShardOf(m.Snd, w.Cfg.NumShards), Carries: m.Carries}
-	if r.DstShard == vmcommon.MetachainShardId {
+	if r.DstShard == spec.MetaShard {
 		return
 	}
 	w.Pool = append(w.Pool, r)
